@@ -164,7 +164,7 @@ func consoleTableChecks(c *caseCtx) {
 // searches of the previous game stored (values that depended on its clock, its history or its evaluation
 // noise) must not surface in the next one: the first search of the new game equals the one of an engine
 // without table.
-func engineResetTableChecks(c *caseCtx) {
+func engineResetTableChecks(c *caseCtx, prop string) {
 	ctx := context.Background()
 	type sc struct {
 		first      string
@@ -177,6 +177,7 @@ func engineResetTableChecks(c *caseCtx) {
 		{"r3k2r/p1ppqpb1/bn2pnp1/3PN3/1p2P3/2N2Q1p/PPPBBPPP/R3K2R w KQkq - 0 1", 8000, "r3k2r/p1ppqpb1/bn2pnp1/3PN3/1p2P3/2N2Q1p/PPPBBPPP/R3K2R w KQkq - 0 1", 3},
 		{"7k/8/5K2/6Q1/8/8/8/8 w - - 97 60", 0, "7k/8/5K2/6Q1/8/8/8/8 w - - 0 1", 3},
 		{"6k1/5ppp/8/8/8/8/5PPP/R5K1 w - - 99 70", 0, "6k1/5ppp/8/8/8/8/5PPP/R5K1 w - - 0 1", 2},
+		{"q7/8/8/8/8/2k5/8/K7 w - - 98 80", 0, "q7/8/8/8/8/2k5/8/K7 w - - 0 1", 2},
 	}
 	n := 0
 	run := func(e *engine.Engine, f string, d uint) (string, bool) {
@@ -209,7 +210,7 @@ func engineResetTableChecks(c *caseCtx) {
 			want, ok2 := run(mk(0), s.second, s.depth)
 			n++
 			if ok1 && ok2 && got != want {
-				fmt.Printf("IMPLVIOL enginetable first=%q noise=%d second=%q depth=%d :: the first search of the new game returns %s with a hash table, %s without prop=C11 key=table-across-games\n", s.first, s.firstNoise, s.second, s.depth, got, want)
+				fmt.Printf("IMPLVIOL enginetable first=%q noise=%d second=%q depth=%d :: the first search of the new game returns %s with a hash table, %s without prop=%s key=table-across-games\n", s.first, s.firstNoise, s.second, s.depth, got, want, prop)
 			}
 		}
 	}
